@@ -238,6 +238,56 @@ theorem lexNumber_float_point (xs xc : Char → Bool) (d f : Fin 10 × Nat) (ds 
   rw [hcons, lexNumber_of_digit xs xc _ _ (isDigit_digitChar dd), ← hcons, heat1]
   simp only [hfb, hsuf]
 
+/-! ## `\\u{…}` -/
+
+/-- value of hex digits read left to right, starting from `v` -/
+def hexFold : Nat → List Char → Nat
+  | v, [] => v
+  | v, c :: cs => hexFold (v * 16 + (hexVal c).getD 0) cs
+
+theorem hexVal_ne (c : Char) (d : Nat) (h : hexVal c = some d) : c ≠ '_' ∧ c ≠ '}' := by
+  have h1 : hexVal '_' = none := by decide
+  have h2 : hexVal '}' = none := by decide
+  constructor <;> (intro hc; subst hc; simp_all)
+
+theorem unicodeRest_digits (v n : Nat) (cs rest : List Char) (hcs : ∀ c ∈ cs, (hexVal c).isSome = true)
+    (hlen : n + cs.length ≤ 6) :
+    unicodeRest v n (cs ++ '}' :: rest) = some (hexFold v cs, n + cs.length, rest) := by
+  induction cs generalizing v n with
+  | nil =>
+    simp only [List.nil_append, unicodeRest, List.length_nil, Nat.add_zero, hexFold]
+    have : ¬ n > 6 := by simp at hlen; omega
+    simp [this]
+  | cons c cs ih =>
+    have hc := hcs c (by simp)
+    obtain ⟨d, hd⟩ := Option.isSome_iff_exists.mp hc
+    obtain ⟨h1, h2⟩ := hexVal_ne c d hd
+    simp only [List.length_cons] at hlen
+    have hn : ¬ n + 1 > 6 := by omega
+    simp only [List.cons_append, unicodeRest, beq_iff_eq, h1, h2, if_false, hd, hn, hexFold, Option.getD_some]
+    rw [ih _ _ (fun x hx => hcs x (by simp [hx])) (by omega)]
+    simp only [List.length_cons, Option.some.injEq, Prod.mk.injEq, true_and, and_true]; omega
+
+/-- `\u{H…}`: one to six hex digits (either case) denote the scalar value they
+    spell, wherever the escape stands -/
+theorem unescape_unicode (c : Char) (cs rest : List Char) (d : Nat) (hd : hexVal c = some d)
+    (hcs : ∀ x ∈ cs, (hexVal x).isSome = true) (hlen : cs.length ≤ 5)
+    (hv : isScalar (hexFold d cs) = true) :
+    unescape ('\\' :: 'u' :: '{' :: c :: (cs ++ '}' :: rest)) =
+      (unescape rest).map (Char.ofNat (hexFold d cs) :: ·) := by
+  have hr := unicodeRest_digits d 1 cs rest hcs (by omega)
+  rw [unescape]
+  simp only [hd]
+  split
+  · rename_i v n r h
+    rw [hr] at h
+    simp only [Option.some.injEq, Prod.mk.injEq] at h
+    obtain ⟨rfl, _, rfl⟩ := h
+    simp [hv]
+  · rename_i h
+    rw [hr] at h
+    simp at h
+
 end RotoV.Literal
 
 namespace RotoV.FString
